@@ -34,6 +34,17 @@ CAUGHT = {
  'C29-a': (['C29'], ''),
  'C30-a': (['C30'], 'first missed; caught after the C30 generator learned documents with per-line mixed line ends and multi-byte characters on many lines'),
  'C31-a': (['C31'], ''),
+ 'C22-b': (['C22'], ''),
+ 'C23-b': (['C23'], 'first missed by C23 and C10 (the language is unchanged); caught after C22/C23 grammars learned a non-terminal whose alternatives share a prefix symbol while one alternative carries other AST control on it. While looking at the run, a genuine defect was found on the unchanged tree (clipped non-terminal with a user type, fixed in a6bdd54)'),
+ 'C24-b': (['C24'], 'the inverse of part of fix 5f1abba'),
+ 'C26-b': (['C26'], ''),
+ 'C27-b': (['C27'], ''),
+ 'C28-b': (['C28'], ''),
+ 'C30-b': (['C30'], 'first missed; caught after C30 learned %on / %skip directive texts that make the server publish token_not_in_scanner diagnostics, with comments that mention the directive keywords'),
+ 'C31-b': (['C31'], 'the demonstration needs RUSTFLAGS=--cfg parol_verif (it uses the guarded re-export); confirmed by hand, see confirm.log'),
+ 'C32-b': (['C32'], ''),
+ 'C33-b': (['C33'], ''),
+ 'C34-b': (['C34'], ''),
  'C08-b': (['C08'], ''),
  'C11-b': (['C11'], ''),
  'C12-b': (['C12'], 'first missed by C12 and C03; caught after C12 learned grammars with clipped / member-named / user-typed occurrences (a third of its cases)'),
